@@ -53,7 +53,7 @@ func (g *rpGen) mws0(max int) []Sx {
 	return out
 }
 
-var rpPrefixForms = []string{"/g%d", "g%d", "/g%d/", "/g%d"}
+var rpPrefixForms = []string{"/g%d", "g%d", "/g%d/", "/g%d", "/G%d", "/Api%d"}
 
 // block generates statements; pfx is the normalised prefix of the enclosing groups
 func (g *rpGen) block(depth int, pfx string, n int) []Sx {
@@ -70,11 +70,19 @@ func (g *rpGen) block(depth int, pfx string, n int) []Sx {
 			ss = append(ss, g.spareCapacity(pfx))
 		case k < 4 && depth < g.depthMax:
 			gi := g.r.Intn(4) + 1 + depth*4
-			name := fmt.Sprintf(rpPrefixForms[g.r.Intn(len(rpPrefixForms))], gi)
+			form := rpPrefixForms[g.r.Intn(len(rpPrefixForms))]
+			name := fmt.Sprintf(form, gi)
 			if g.clean {
-				name = fmt.Sprintf("/g%d", gi)
+				form, name = "/g%d", fmt.Sprintf("/g%d", gi)
 			}
-			sub := pfx + "/g" + fmt.Sprint(gi)
+			sub := pfx + "/" + strings.Trim(fmt.Sprintf(form, gi), "/")
+			if !g.clean && g.r.Chance(1, 8) { // a prefix of two segments, or (with dynamic routes) one that ends in a variable
+				if g.dynamic && g.r.Bool() {
+					name, sub = fmt.Sprintf("/g%d/{gid}", gi), fmt.Sprintf("%s/g%d/%d", pfx, gi, 40+g.r.Intn(3))
+				} else {
+					name, sub = fmt.Sprintf("/g%d/v%d", gi, gi%3), fmt.Sprintf("%s/g%d/v%d", pfx, gi, gi%3)
+				}
+			}
 			if depth > 0 && pfx != "" && g.r.Chance(1, 5) && !strings.HasSuffix(name, "/") {
 				// a prefix text that already occurs in the enclosing prefix: the same segment again, or a leading part of it
 				segs := strings.Split(strings.TrimPrefix(pfx, "/"), "/")
@@ -255,6 +263,10 @@ func c12Gen(r *Rng, tier string, i int) Sx {
 	var opts []Sx
 	if strict {
 		opts = append(opts, L(A("strict")))
+	}
+	if g.dynamic && r.Bool() { // with the route cache: every request twice (the second one is served from the cached copy)
+		opts = append(opts, L(A("cache"), I(r.Range(0, 4))))
+		g.reqs = append(g.reqs, g.reqs...)
 	}
 	return g.finish(opts, stmts)
 }
